@@ -52,7 +52,7 @@ Inductive layout_run (keccak : list byte -> N) (table : list (N * N)) (mode : or
     (lr_lift : lift_loop keccak table cfg (unique (all_values mode (v_stored m))) 0 (v_polls m) [] false = LOk lifted polls)
     (lr_infer : infer_values (pipeline_rules mode) (tc_values mode (Register.values (snd (assign_vars lifted))))
                   (snd (assign_vars lifted)) = Ok st)
-    (lr_layout : build_layout abi_nested_add (env_of_forest s n) (S (N.to_nat n))
+    (lr_layout : build_layout abi_nested_add abi_nested_fit (env_of_forest s n) (S (N.to_nat n))
                    (tc_values mode (Register.values st ++ synthetic_values (next st) n)) [] = Ok l).
 
 Lemma analyze_layout_inv keccak table mode fu bytes cfg l :
@@ -75,7 +75,7 @@ Proof.
       cbn [t_result stop_trace]; try discriminate.
     destruct (stop_at cfg); cbn [t_result]; try discriminate.
     destruct (unify (f_rounds fu) (orders_of mode) (tstate_of st')) as [[s n]|[]|p]; cbn [t_result]; try discriminate.
-    destruct (build_layout abi_nested_add (env_of_forest s n) (S (N.to_nat n))
+    destruct (build_layout abi_nested_add abi_nested_fit (env_of_forest s n) (S (N.to_nat n))
                 (tc_values mode (Register.values st' ++ synthetic_values (next st') n)) []) as [l'|e|p] eqn:Eb;
       cbn [t_result]; try discriminate.
     intros [= <-].
@@ -91,13 +91,13 @@ Proof.
   induction rows as [|e rows IH]; intros layout H; cbn [fold_left]; [exact H|]. apply IH. apply layout_add_sorted.
 Qed.
 
-Lemma build_layout_sorted nested_add env fuel : forall vals layout L,
-  sorted_io layout -> build_layout nested_add env fuel vals layout = Ok L -> sorted_io L.
+Lemma build_layout_sorted nested_add fit env fuel : forall vals layout L,
+  sorted_io layout -> build_layout nested_add fit env fuel vals layout = Ok L -> sorted_io L.
 Proof.
   induction vals as [|x r IH]; intros layout L Hs; cbn [build_layout].
   - intros [= <-]. exact Hs.
   - destruct (const_slot_key x) as [index|]; [|apply IH; exact Hs].
-    destruct (abi_type_for nested_add env fuel (tv_of x)) as [a|e|p]; try discriminate.
+    destruct (abi_type_for nested_add fit env fuel (tv_of x)) as [a|e|p]; try discriminate.
     apply IH. apply fold_layout_add_sorted. exact Hs.
 Qed.
 
@@ -805,7 +805,7 @@ Proof.
     as (st2 & E2 & _ & _ & K).
   { intros x Hx. unfold tc_values in Hx. apply arrange_in in Hx. exact (values_in_exprs st0 x (inv_winv st0 I) (i_var st0 I) Hx). }
   rewrite Ei in E2. inversion E2; subst st2.
-  destruct (layout_row_per_const_slot_gen abi_nested_add _ _ _ _ _ Eb) as (_ & Rows).
+  destruct (layout_row_per_const_slot_gen abi_nested_add _ _ _ _ _ _ Eb) as (_ & Rows).
   apply (Rows y c); [|exact (const_slot_of_erase y c Ey)].
   unfold tc_values. apply arrange_in. apply in_or_app. left. unfold Register.values. rewrite <- in_rev.
   apply in_map_iff. exists (tv_of y, y). split; [reflexivity|exact (K _ Iy)].
@@ -1016,9 +1016,9 @@ Proof.
 Qed.
 
 (* ---- the layout loop without constant slots ---- *)
-Lemma build_layout_no_slots nested_add env fuel : forall vals layout L,
+Lemma build_layout_no_slots nested_add fit env fuel : forall vals layout L,
   (forall x, In x vals -> ttag x <> T_StorageSlot) ->
-  build_layout nested_add env fuel vals layout = Ok L -> L = layout.
+  build_layout nested_add fit env fuel vals layout = Ok L -> L = layout.
 Proof.
   induction vals as [|x r IH]; intros layout L Hv; cbn [build_layout]; [intros [= <-]; reflexivity|].
   assert (K : const_slot_key x = None).
